@@ -69,7 +69,11 @@ impl Generator {
         // cap would leave extra items (and an invalid pickle) behind for very deep stacks
         while self.state.stack.len() > 1 {
             let stack_len = self.state.stack.len();
-            if stack_len >= 3 {
+            if matches!(self.state.version, Version::V0 | Version::V1) {
+                // TUPLE2/TUPLE3 were introduced in protocol 2; older protocols drop the
+                // surplus items with POP (protocol 0) instead
+                self.emit_opcode(Pop);
+            } else if stack_len >= 3 {
                 self.emit_opcode(Tuple3);
             } else if stack_len == 2 {
                 self.emit_opcode(Tuple2);
